@@ -38,7 +38,8 @@ def run(R):
         lens = range(0, 4 * b + 2) if thorough else lengths_quick(b, lb)
         stream = vlib.prng_bytes(R.seed, "c01/" + alg, 4 * b + 2)
         for n in lens:
-            add({"alg": alg}, stream[:n], (alg, n))
+            # both ways of obtaining a context: the algorithm marker (Sha256::new()) and the context's own constructor (Context256::new())
+            add({"alg": alg, "ctor": "ctx" if n % 2 else "marker"}, stream[:n], (alg, n))
     # long messages: one variant per compression function, seeded lengths up to 64 KiB (thorough) / 4 KiB (quick)
     for alg in ["sha256", "sha512", "sha1", "ripemd160", "sha3_256", "keccak512"]:
         n = R.rng.randrange(40000, 65537) if thorough else R.rng.randrange(2000, 4097)
@@ -60,11 +61,11 @@ def run(R):
             for n in (msglens if msglens is not None else [R.rng.choice([0, 1, b - 1, b, b + 1, 2 * b, 2 * b + 1, 3 * b + 5])]):
                 msg = vlib.prng_bytes(R.seed, "c01/%s/%d/%d" % (alg, o, k), n)
                 api = "const" if (o + k + n) % 3 == 0 else "dyn"
-                add({"alg": alg, "api": api, "outlen": o, "key": keys[:k]}, msg, (alg, o, k, n))
+                add({"alg": alg, "api": api, "outlen": o, "key": keys[:k], "ctor": "marker" if (o + n) % 2 else "ctx"}, msg, (alg, o, k, n))
         # the fixed-size one-shot functions and array-returning finalize, all lengths around the block
         for o in ([28, 32, 48, 64] if alg == "blake2b" else [28, 32]):
             for n in (range(0, 2 * b + 2) if thorough else [0, 1, b - 1, b, b + 1, 2 * b, 2 * b + 1]):
-                add({"alg": alg, "api": "const", "outlen": o, "key": []}, vlib.prng_bytes(R.seed, "c01f/%s/%d" % (alg, o), n), (alg, o, 0, n, "fixed"))
+                add({"alg": alg, "api": "const", "outlen": o, "key": [], "ctor": "marker" if n % 2 else "ctx"}, vlib.prng_bytes(R.seed, "c01f/%s/%d" % (alg, o), n), (alg, o, 0, n, "fixed"))
     R.rule = ("one history per (variant, message): one-shot function + Context::update/finalize; fixed variants x lengths "
               + ("0..4*block+1" if thorough else "{0,1,block-LB-2..block+1,2*block-1..2*block+1}") +
               "; BLAKE2 (outlen,keylen) " + ("full grid x msg lengths {0,1,B,B+1}" if thorough else "corners + seeded sample of 75 pairs") +
